@@ -140,4 +140,6 @@ def cases(tier):
         c2["params"] = dict(c["params"], maximize=True)
         c2["name"] = c["name"] + ".maximize"
         cs.append(c2)
+    from .selftest import cases as _selftest_cases
+    cs += _selftest_cases(tier)  # shim validation on constants (adversarial table), DESIGN 5.3
     return cs
